@@ -381,3 +381,103 @@ def consuming_call_blocks(P, f):
             if lit == L and bi in D.edge_dominated(f, sb, tt):
                 out.add(bi)
     return out
+
+
+# ------------------------------------------------------------------ RECURSION-PROGRESS
+def _idx_progress_region(f):
+    """blocks only reachable when `tokens.idx > start` is known (start = a copy of tokens.idx taken earlier in f)."""
+    regs = set()
+    for b in f.blocks:
+        for st in b["stmts"]:
+            if st.get("s") != "assign" or st["rv"]["k"] != "binop" or st["rv"]["op"] not in ("Lt", "Le", "Gt", "Ge", "Eq", "Ne"):
+                continue
+            kind, sl = _idx_vs_start(f, st["rv"])
+            if kind is None:
+                continue
+            for sw in D.bool_switches(f):
+                r = sw["root"]
+                if r[0] == "rv" and r[3] is st:
+                    op = st["rv"]["op"]
+                    if kind == "start_first":
+                        op = {"Lt": "Gt", "Le": "Ge", "Gt": "Lt", "Ge": "Le", "Eq": "Eq", "Ne": "Ne"}[op]
+                    # only `idx > start` (or the false edge of `idx <= start`) establishes progress: after an unpop at the
+                    # end of the file idx can be *smaller* than start, so `!=` and `==` prove nothing
+                    edge = sw["true"] if op == "Gt" else sw["false"] if op == "Le" else None
+                    if edge is not None:
+                        regs |= D.edge_dominated(f, sw["bb"], edge)
+    return regs
+
+
+def recursion_progress(P, reach, res, table):
+    """RECURSION-PROGRESS: in every cycle of token-taking parser functions at least one call is made only after a token
+    has certainly been consumed in the caller (a pop under a successful peek, a callee that starts with require_token(L)
+    under a test that the next token is L, or an explicit `tokens.idx > start` test), or is a reviewed edge whose
+    recorded guard still holds. Otherwise the recursion can repeat on the same token until the stack overflows."""
+    from . import loops as LP
+
+    def takes_tokens(p_):
+        g = P.funcs.get(p_)
+        return g is not None and any("TokenStream" in g.locals[i]["ty"] for i in range(1, g.argc + 1))
+    members = {p_ for p_ in reach if p_.startswith("parser::") and takes_tokens(p_)}
+    E = P.edges()
+    comps = LP.sccs(P, members)
+    reviewed = table.get("edges", {})
+    n_edges = 0
+    used = set()
+    for comp in comps:
+        cs = set(comp)
+        rem = {}
+        where = {}
+        for p_ in comp:
+            f = P.funcs[p_]
+            pops = successful_pop_blocks(f)
+            cons = consuming_call_blocks(P, f)
+            regs = _idx_progress_region(f)
+            for k, t, bi in E.get(p_, []):
+                if k == "live" or t not in cs:
+                    continue
+                n_edges += 1
+                if bi in cons or bi in regs or any(pb != bi and f.dominates(pb, bi) for pb in pops | cons):
+                    continue
+                key = "%s -> %s" % (p_, t)
+                row = reviewed.get(key)
+                if row is not None:
+                    now = {PI.canon_guard(x) for x in PI.guard_fingerprint(f, bi)}
+                    if any({PI.canon_guard(x) for x in g} <= now for g in row.get("guards", [[]])):
+                        used.add(key)
+                        continue
+                    res.bad("RECURSION-PROGRESS", key + " # guard-changed",
+                            "the recursive call %s was reviewed as safe under %s, which no longer guards it (now: %s)" % (key, row.get("guards"), sorted(now)),
+                            f.loc(f.blocks[bi]["term"].get("fn_span")))
+                    continue
+                rem.setdefault(p_, set()).add(t)
+                where[(p_, t)] = f.loc(f.blocks[bi]["term"].get("fn_span"))
+        color = {}
+        cycles = []
+
+        def dfs(u, stack):
+            color[u] = 1
+            stack.append(u)
+            for v in sorted(rem.get(u, ())):
+                if color.get(v) == 1:
+                    cycles.append(stack[stack.index(v):] + [v])
+                elif v not in color:
+                    dfs(v, stack)
+            stack.pop()
+            color[u] = 2
+        for u in sorted(rem):
+            if u not in color:
+                dfs(u, [])
+        if cycles:
+            for c in cycles[:4]:
+                res.bad("RECURSION-PROGRESS", "cycle # " + " -> ".join(x.split("::")[-1] for x in c),
+                        "the parser functions %s call each other in a cycle in which no call is made only after a token has certainly been "
+                        "consumed (`tokens.idx > start`, a pop under a successful peek, or a callee that starts by consuming the token just "
+                        "peeked): on some input the cycle repeats on the same token until the stack overflows" % " -> ".join(x.split("::")[-1] for x in c),
+                        where.get((c[0], c[1])))
+        else:
+            res.ok("RECURSION-PROGRESS", "SCC of %d parser functions around %s: every cycle passes a call made after certain progress" % (len(comp), comp[0]))
+    for key in reviewed:
+        if key not in used:
+            res.note("RECURSION-PROGRESS: reviewed edge `%s` is no longer needed (the call now follows certain progress, or is gone)" % key)
+    res.floor("RECURSION-PROGRESS", "recursive call edges among token-taking parser functions", n_edges, 40)
